@@ -63,6 +63,11 @@ func (g *gen) Add(name string, typs []types.Type) (string, error) {
 			return g.SetFuncName(name, tuptypes...)
 		}
 	}
+	for _, typ := range typs {
+		if basic, ok := typ.(*types.Basic); ok && basic.Kind() == types.UntypedNil {
+			return "", fmt.Errorf("%s has a nil argument, which does not have a type that can be a field of the tuple", name)
+		}
+	}
 	return g.SetFuncName(name, typs...)
 }
 
